@@ -174,7 +174,8 @@ func checkRoute(t *testing.T, c RouteCase) (v harness.Verdict) {
 			v.Class("route:in-span")
 			host := fmt.Sprintf("shard%d.example", want)
 			switch {
-			case total == 0 && c.Chain.Quirk != 0:
+			case total == 0 && c.Chain.Quirk != 0 && twinRouted(tlc, sec, c.Chain):
+				// the same certificate without the parser finding IS submitted: the finding is the cause
 				v.Failf("route-client-refuses-nonfatal-leaf", "NotAfter %v belongs to shard %d %v and its server admits the leaf (the X.509 parser reports only a NON-fatal error for it), but TemporalLogClient refuses to submit it: %v", s, want, sh[want], err)
 			case total == 0:
 				v.Failf("route-inside-span-not-submitted", "NotAfter %v belongs to shard %d %v, whose server admits it, but the temporal client submitted it nowhere: %v", s, want, sh[want], err)
@@ -201,6 +202,26 @@ func checkRoute(t *testing.T, c RouteCase) (v harness.Verdict) {
 		}
 	}
 	return v
+}
+
+// twinRouted submits the twin of a quirky leaf - same NotAfter, validity and issuer, no parser finding -
+// through the temporal client and reports whether it was accepted somewhere. Used only to name the
+// root cause of a refusal, never for the verdict.
+func twinRouted(tlc *client.TemporalLogClient, sec int64, k ChainKind) bool {
+	k.Quirk = 0
+	var chain []ct.ASN1Cert
+	for _, d := range chainFor(sec, k).ders {
+		chain = append(chain, ct.ASN1Cert{Data: d})
+	}
+	ctx, cancel := context.WithTimeout(context.Background(), 20*time.Second)
+	defer cancel()
+	var err error
+	if k.Precert {
+		_, err = tlc.AddPreChain(ctx, chain)
+	} else {
+		_, err = tlc.AddChain(ctx, chain)
+	}
+	return err == nil
 }
 
 // RouteProp is the end-to-end half of C18.
